@@ -29,16 +29,16 @@ for m in metas:
     r = m.get('round', 1)
     h = m.get('history', '')
     first = 'detected' if h.startswith('detected by the check as built') else ('other reason' if ('accident' in h or 'neighbouring' in h or 'UNDECIDED' in h or 'only because' in h or 'related reason' in h) else 'missed')
-    per.setdefault(r, []).append((m['_dir'], first, h))
+    per.setdefault(r, []).append((m['_dir'], first, h, bool(m.get('still_missed'))))
 summ = ['| round | changes | detected at first run | detected for another reason | missed at first run | detected now |', '|---|---|---|---|---|---|']
 for r, lst in sorted(per.items()):
     n = len(lst)
-    summ.append(f"| {r} | {n} | {sum(1 for x in lst if x[1]=='detected')} | {sum(1 for x in lst if x[1]=='other reason')} | {sum(1 for x in lst if x[1]=='missed')} | {n} |")
+    summ.append(f"| {r} | {n} | {sum(1 for x in lst if x[1]=='detected')} | {sum(1 for x in lst if x[1]=='other reason')} | {sum(1 for x in lst if x[1]=='missed')} | {n - sum(1 for x in lst if x[3])} |")
 tab = ['| round | seeded change (`/verif/seeded/<name>`) | first run | what changed in the checker |', '|---|---|---|---|']
 for r, lst in sorted(per.items()):
     if r == 1:
         continue
-    for name, first, h in lst:
+    for name, first, h, _sm in lst:
         tab.append(f"| {r} | {name} | {'detected' if first=='detected' else '**'+first+'**'} | {'–' if first=='detected' else h} |")
 replace('seeded-summary', '\n'.join(summ))
 replace('seeded-rounds', '\n'.join(tab))
